@@ -201,7 +201,8 @@ func playSrv(m *meter, sc srvScenario) string {
 				where, trace = spinningAt()
 				m.failDetail = trace
 			}
-			m.fail("C15/hang/srv/"+sc.name+"/"+where, fmt.Sprintf("scenario %s (try %d, class %s): afterwards a new connection does not get through any more; the server side sits in %s", sc.name, tries, class, where))
+			// the fingerprint names the place, not the scenario: several scenarios can run into one defect
+			m.fail("C15/hang/srv/"+where, fmt.Sprintf("scenario %s (try %d, class %s): afterwards a new connection does not get through any more; the server side sits in %s", sc.name, tries, class, where))
 			m.end(total)
 			return "STUCK/" + class
 		}
@@ -466,7 +467,7 @@ func spinningAt() (string, string) {
 				continue
 			}
 			repo = append(repo, shortFunc(f[1]))
-			if len(repo) == 3 {
+			if len(repo) == 5 {
 				break
 			}
 		}
